@@ -36,6 +36,18 @@ class Interface(Scope):
     def is_external_int(self):
         return self.external
 
+    def get_children(self, public_only=False):
+        if public_only and self.name.startswith("#GEN_INT") and self.parent:
+            # The procedures of an unnamed interface block have the default
+            # accessibility of the scope the block stands in
+            host_vis = self.parent.def_vis
+            return [
+                child
+                for child in self.children
+                if not ((child.vis < 0) or ((host_vis < 0) and (child.vis <= 0)))
+            ]
+        return super().get_children(public_only)
+
     def is_abstract(self):
         return self.abstract
 
